@@ -83,8 +83,8 @@ func runC04(p *core.Prog, r *core.Report) {
 	}
 	cx.r1()
 	cx.r2r3r5()
-	c04R4(p, r, fn)
-	c04R6(p, r, fn)
+	c04R4(p, r, fn, "C04.R4")
+	c04R6(p, r, fn, "C04.R6")
 }
 
 // resolveLit returns the function literal a go statement runs: a literal, or a local variable
@@ -614,8 +614,7 @@ func hasFreeBranch(body *ast.BlockStmt) bool {
 // ---------------------------------------------------------------------------------------------
 // R4 (SSA): recursive calls
 
-func c04R4(p *core.Prog, r *core.Report, fn *ssa.Function) {
-	const rule = "C04.R4"
+func c04R4(p *core.Prog, r *core.Report, fn *ssa.Function, rule string) {
 	name := p.FuncName(fn)
 	lab := labeler{}
 	for _, f := range core.WithAnon(fn) {
@@ -678,8 +677,7 @@ func errDropped(fn *ssa.Function, w *ssa.Call) (bool, ssa.Instruction) {
 	return false, nil
 }
 
-func c04R6(p *core.Prog, r *core.Report, trav *ssa.Function) {
-	const rule = "C04.R6"
+func c04R6(p *core.Prog, r *core.Report, trav *ssa.Function, rule string) {
 	bc := p.Method(".", "RegClient", "BlobCopy")
 	if bc == nil {
 		r.MissingAnchor(rule, "regclient.(*RegClient).BlobCopy")
